@@ -53,7 +53,7 @@ def cases(tier, seed):
         if F_h("m10@50", 10) in (4, 5):
             case["at"] = ["/resolutions/1000", "/a/b"][F_h("m2@51", 2)]      # a level of a multires file / any nested group
         if F_h("m7@52", 7) == 6:
-            case["prior"] = True                                   # the path held another collection before
+            case["prior"] = "relayout"              # the path held another collection (other chromosome layout, other pixels) before
         if F_h("m9@54", 9) == 7:
             case["stale"] = True                                   # balanced through an object that predates the current content
         if F_h("m11@56", 11) in (4, 8) and not x0:
